@@ -144,7 +144,24 @@ def compareOld (calls : List XCall) (w : XW) (rs : List (List XO)) : String :=
     if ro.map (fun r => [resToXO r]) == rs && decide (wo.j = jx) && decide (wo.bus.state = w.bus.state)
         && wo.bus.execv == w.bus.execv then "same" else "diff"
 
+/-- unit lines: `cf:E.E.E` (exceptions handled in order, `-` = none) and
+    `log:TB:LEVEL:MSG:EXC` (texts as decimal code points) -/
+def unitStep (line : String) : Option String :=
+  match line.trimAscii.toString.splitOn ":" with
+  | ["cf", es] => do
+    let xs ← if es == "-" then some [] else (es.splitOn ".").mapM (·.toNat?)
+    let c := xs.foldl CF.handle {}
+    some s!"CF={if c.truthy then 1 else 0}:{"/".intercalate (c.instances.map toString)}"
+  | ["log", tb, level, msg, exc] => do
+    let l ← level.toNat?
+    let m ← Proto.untext? msg
+    let x ← Proto.untext? exc
+    let r := logArgs m l (tb == "1") x
+    some s!"LOG={Proto.text r.1}:{r.2}"
+  | _ => none
+
 def step (line : String) : String :=
+  if line.startsWith "cf:" || line.startsWith "log:" then (unitStep line).getD "bad-op" else
   match (Proto.fields line).mapM parseCall with
   | none => "bad-op"
   | some calls =>
